@@ -26,7 +26,7 @@ suite_result="skipped"
 if [ "$suite" = yes ]; then
   echo "== suite with change" >>"$log"
   timeout 1500 cargo nextest run --workspace --no-fail-fast --offline -E 'not test(pty_task) and not test(pty_control)' > "$out/suite.log" 2>&1
-  fails=$(grep -E "^\s+(FAIL|TIMEOUT|SIGABRT|SIGSEGV)" "$out/suite.log" | awk '{print $NF}' | sort -u | grep -v -E "grep_reports_unreadable|ls_reports_unreadable|local_authority_recovers_from_stale_lock|pipes_task_applies_cwd_and_env|list_checkpoints_sorted" | tr '\n' ' ')
+  fails=$(grep -E "^\s+(FAIL|TIMEOUT|SIGABRT|SIGSEGV)" "$out/suite.log" | awk '{print $NF}' | sort -u | grep -v -E "grep_reports_unreadable|ls_reports_unreadable|local_authority_recovers_from_stale_lock|pipes_task_applies_cwd_and_env|list_checkpoints_sorted|run_task_writes_stdout_and_stderr_logs" | tr '\n' ' ')
   summ=$(grep -E "Summary" "$out/suite.log" | tail -1)
   echo "suite: $summ unexpected_failures=[$fails]" >>"$log"
   if [ -n "$fails" ]; then suite_result="UNEXPECTED-FAILURES: $fails"; else suite_result="ok"; fi
